@@ -211,13 +211,6 @@ def renderOut : Out → String
   | .fault d => "fault " ++ d.render
   | .unmodelled => "unmodelled"
 
-/-- the mutation a request names -/
-inductive Op where
-  | set (v : JV)
-  | del
-  | mod (m : Modifier)
-  | rem
-
 def parseOp (op arg : String) : Option Op :=
   if op = "set" then (parseJV arg).map Op.set
   else if op = "del" then some .del
@@ -225,33 +218,7 @@ def parseOp (op arg : String) : Option Op :=
   else if op = "rem" then some .rem
   else none
 
-def runModel (gen : Bool) (dev : Dev) (one : Bool) (x : List Frag) (d : JV) : Op → Out
-  | .set v => setM gen dev one (.val v) x d
-  | .del => setM gen dev one .del x d
-  | .mod m => modifyM gen dev one m x d
-  | .rem => removeM gen dev one x d
-
 /-! ### the specification's verdict -/
-
-def expected (x : List Frag) (d : JV) : Op → JV
-  | .set v => setSpec x v d
-  | .del => delSpec x d
-  | .mod m => modifySpec x m d
-  | .rem => removeSpec x d
-
-/-- the locations outside which nothing may change -/
-def frameSet (x : List Frag) (d : JV) : Op → List Path
-  | .set _ => locs x d ++ createRoots x d
-  | .del => locs x d
-  | .mod _ => locs x d
-  | .rem => (locs x d).map List.dropLast
-
-/-- the edit of one location only -/
-def single (p : Path) (d : JV) : Op → JV
-  | .set v => updAll (fun _ => v) [p] d
-  | .del => delAll [p] d
-  | .mod m => updAll m.eff [p] d
-  | .rem => remAll [p] d
 
 def judgeOk (one : Bool) (x : List Frag) (d d' : JV) (op : Op) : String :=
   if one then
